@@ -7,8 +7,11 @@ pub mod c03;
 pub mod c04;
 pub mod c05;
 pub mod c06;
+pub mod c07;
 pub mod c10;
+pub mod c11;
 pub mod c12;
+pub mod c15;
 pub mod c16;
 pub mod c17;
 pub mod c18;
@@ -29,8 +32,11 @@ pub fn all() -> Vec<Prop> {
         Prop { id: "C04", run: c04::run, replay: c04::replay },
         Prop { id: "C05", run: c05::run, replay: c05::replay },
         Prop { id: "C06", run: c06::run, replay: c06::replay },
+        Prop { id: "C07", run: c07::run, replay: c07::replay },
         Prop { id: "C10", run: c10::run, replay: c10::replay },
+        Prop { id: "C11", run: c11::run, replay: c11::replay },
         Prop { id: "C12", run: c12::run, replay: c12::replay },
+        Prop { id: "C15", run: c15::run, replay: c15::replay },
         Prop { id: "C16", run: c16::run, replay: c16::replay },
         Prop { id: "C17", run: c17::run, replay: c17::replay },
         Prop { id: "C18", run: c18::run, replay: c18::replay },
